@@ -79,7 +79,13 @@ func (m *PluginManager) ListInstalledPlugins() ([]PluginMetadata, error) {
 				return curOut[i].Versions[j].Number.GreaterThan(curOut[i].Versions[k].Number)
 			})
 		}
-		out = append(out, curOut...)
+		for i := range curOut {
+			if len(curOut[i].Versions) == 0 {
+				// No version is installed (e.g. an installation was interrupted before anything was moved into place).
+				continue
+			}
+			out = append(out, curOut[i])
+		}
 	}
 
 	return out, nil
